@@ -8,7 +8,7 @@ Theorems about `Sop.Lifecycle` (the transcription of `Begin / Phase1Commit / Pha
 
 * `ops_only_when_begun`, `committed_cannot_rollback`, `finished_is_final` hold at full strength.
 * section 5: the same statements with FAILING calls (a failure injected under any call): `ended_is_final`,
-  `lifecycle_final_with_failures`, `failed_call_outcome`; a failing phase 2 without a store panics (`C14_panic_counterexample`).
+  `lifecycle_final_with_failures`, `failed_call_outcome`, `no_call_panics`.
 * `readonly_never_writes` is **violated by the code**: `NewBtree` never looks at the mode. The full statement is
   `Statement_readonly_never_writes`; `C14_counterexample` refutes it with the witness the harness replays first;
   `readonly_never_writes_partial` is the strongest true version (excluding exactly the store-creating `NewBtree`).
@@ -684,7 +684,8 @@ work fails, phase 2 under `Commit` fails, the internal undo fails, an error is d
 `stepCoreF_nofault` (it is an extension of the model above), `stepCoreF_done` / `ended_is_final` /
 `lifecycle_final_with_failures` (after ANY `Rollback` or `Commit` call, successful or failing, the transaction is
 finished and frozen), `failed_call_outcome` (what state each failing call leaves), `started_stable`,
-`C14_panic_counterexample` (a failing phase 2 without a store panics: finding C14-F3). -/
+`no_call_panics` (every call returns; `legacy_phase2_panicked`: before fix fb2f596d a failing phase 2 without a store
+panicked, finding C14-F3). -/
 
 @[simp] theorem isOk_panic : Res.panic.isOk = false := rfl
 
@@ -862,7 +863,7 @@ theorem phase2TxF_pd (s : St) (work : Bool) (h : s.pd = 1 ∨ s.pd = 2) : (phase
     simp only [hb, Bool.not_true, Bool.false_eq_true, if_false, h0]
     split
     · split
-      · split <;> simp [rollbackCore_pd]
+      · simp [rollbackCore_pd]
       · simp [R.ofOut]
     · simp [R.ofOut]
   · simp [hasBegun_done s h, h]
@@ -1025,7 +1026,7 @@ theorem phase2TxF_p4 (s : St) (work : Bool) : P4 s.pd (phase2TxF s work).st.pd :
     · exact P4.refl _
     · split
       · split
-        · split <;> simp [P4, rollbackCore_pd]
+        · simp [P4, rollbackCore_pd]
         · exact phase2Tx_p4 s
       · exact phase2Tx_p4 s
 
@@ -1367,18 +1368,185 @@ example : (stepF (runF (initF .forReading .one) [(.begin, Fx.none), (.openBtree,
 example : (stepF (runF (initF .forReading .one) [(.begin, Fx.none), (.openBtree, Fx.none), (.store .get, Fx.none)])
     .commit fxWork).1.st.pd = 2 := by decide
 
-/-- full-strength statement: no call ever panics -/
-def Statement_no_panic : Prop :=
-  ∀ (m : Mode) (i : Init) (cs : List (Op × Fx)), ∀ e ∈ traceF (initF m i) cs, e.res ≠ .panic
+/-! ### no call panics (after fix fb2f596d) -/
 
-/-- **C14_panic_counterexample** (finding C14-F3): a writer transaction with no store attached whose phase 2 fails
-(`log(finalizeCommit)` refused by the transaction log): `Transaction.rollback` indexes `btreesBackend[0]` and
-panics. Replayed on the real code by the harness (`begin, commit!tlog.add#1`). After the panic (`defer t.Close()` has
-run, `phaseDone = 2`) the transaction is finished like after any other `Commit` call (`ended_is_final` covers it). -/
-theorem C14_panic_counterexample : ¬ Statement_no_panic := by
-  intro h
-  have := h .forWriting .absent [(.begin, Fx.none), (.commit, fxWork2)]
-  revert this
+theorem rollbackTx_np (s : St) : (rollbackTx s).2.1 ≠ .panic := by
+  unfold rollbackTx
+  split
+  · split <;> simp
+  · split <;> simp
+
+theorem rollbackTxF_np (s : St) (fx : Fx) : (rollbackTxF s fx).res ≠ .panic := by
+  unfold rollbackTxF
+  split
+  · exact rollbackTx_np s
+  · split
+    · exact rollbackTx_np s
+    · split <;> simp
+
+theorem phase1Writer_np (s : St) : (phase1Writer s).2.1 ≠ .panic := by
+  unfold phase1Writer
+  split
+  · simp
+  · split
+    · simp
+    · split <;> simp
+
+theorem phase1Tx_np (s : St) : (phase1Tx s).2.1 ≠ .panic := by
+  unfold phase1Tx
+  split
+  · simp
+  · split
+    · simp
+    · simp
+    · exact phase1Writer_np _
+
+theorem phase1TxF_np (s : St) (fx : Fx) : (phase1TxF s fx).res ≠ .panic := by
+  unfold phase1TxF
+  split
+  · simp
+  · split
+    · exact phase1Tx_np s
+    · split
+      · simp
+      · exact phase1Tx_np s
+    · split
+      · simp
+      · exact phase1Tx_np s
+
+theorem phase2Tx_np (s : St) : (phase2Tx s).2.1 ≠ .panic := by
+  unfold phase2Tx
+  split
+  · simp
+  · split
+    · simp
+    · split <;> simp
+
+theorem phase2TxF_np (s : St) (work : Bool) : (phase2TxF s work).res ≠ .panic := by
+  unfold phase2TxF
+  split
+  · simp
+  · split
+    · simp
+    · split
+      · split
+        · simp
+        · exact phase2Tx_np s
+      · exact phase2Tx_np s
+
+theorem afterRollback_np (rb : R) (e : Err) (w : List W) (hit : Bool) : (afterRollback rb e w hit).res ≠ .panic := by
+  unfold afterRollback; simp only; split <;> simp
+
+theorem commitTxF_np (s : St) (fx : Fx) : (commitTxF s fx).res ≠ .panic := by
+  unfold commitTxF
+  simp only
+  split
+  · split
+    · simp
+    · split
+      · exact phase2TxF_np _ _
+      · simp
+  · split
+    · exact phase1TxF_np s fx
+    · simp
+
+theorem newBtree_np (s : St) : (newBtree s).2.1 ≠ .panic := by
+  unfold newBtree
+  split
+  · simp
+  · split
+    · simp
+    · split <;> simp
+
+theorem openBtree_np (s : St) : (openBtree s).2.1 ≠ .panic := by
+  unfold openBtree
+  split
+  · simp
+  · split
+    · simp
+    · split
+      · simp only; split <;> simp
+      · simp
+
+theorem storeOp_np (s : St) (k : Kind) : (storeOp s k).2.1 ≠ .panic := by
+  unfold storeOp
+  split
+  · simp
+  · split
+    · split
+      · simp
+      · simp only; split <;> simp
+    · split
+      · simp only; split <;> simp
+      · split <;> simp
+
+/-- **no_call_panics**: every call of the alphabet, in every state, under every failure pattern, RETURNS: ok, a refusal
+or an error — never a panic. (Before fix fb2f596d this was false: `legacy_phase2_panicked`.) -/
+theorem no_call_panics (s : St) (op : Op) (fx : Fx) : (stepCoreF s op fx).res ≠ .panic := by
+  cases op with
+  | begin =>
+    simp only [stepCoreF, beginTx, R.ofOut]
+    split
+    · simp
+    · split <;> simp
+  | phase1 => exact phase1TxF_np s fx
+  | phase2 => exact phase2TxF_np s fx.work
+  | commit => exact commitTxF_np s fx
+  | rollback => exact rollbackTxF_np s fx
+  | close => simp only [stepCoreF]; split <;> simp
+  | newBtree =>
+    simp only [stepCoreF, newBtreeF]
+    split
+    · simp
+    · split
+      · exact afterRollback_np _ _ _ _
+      · exact newBtree_np s
+  | openBtree =>
+    simp only [stepCoreF, openBtreeF]
+    split
+    · simp
+    · split
+      · exact openBtree_np s
+      · split
+        · exact afterRollback_np _ _ _ _
+        · split
+          · exact afterRollback_np _ _ _ _
+          · exact openBtree_np s
+  | store k =>
+    simp only [stepCoreF, storeOpF]
+    split
+    · simp
+    · split
+      · exact storeOp_np s k
+      · split
+        · exact afterRollback_np _ _ _ _
+        · split
+          · simp
+          · split
+            · exact afterRollback_np _ _ _ _
+            · exact storeOp_np s k
+
+/-- over sequences: from any mode and initial condition, no call of any sequence with any failures panics -/
+theorem no_panic_in_any_sequence (s : FSt) (cs : List (Op × Fx)) : ∀ e ∈ traceF s cs, e.res ≠ .panic := by
+  induction cs generalizing s with
+  | nil => intro e he; simp [traceF] at he
+  | cons c cs ih =>
+    intro e he
+    simp only [traceF, List.mem_cons] at he
+    rcases he with rfl | he
+    · exact no_call_panics s.st c.1 c.2
+    · exact ih _ e he
+
+/-- the repaired sequence: a writer without a store whose phase 2 fails now gets the phase-2 error and is finished -/
+theorem phase2_failure_without_store_returns_error :
+    (stepF (runF (initF .forWriting .absent) [(.begin, Fx.none)]) .commit fxWork2).2.1 = .err .other ∧
+    (stepF (runF (initF .forWriting .absent) [(.begin, Fx.none)]) .commit fxWork2).1.st.pd = 2 := by
+  decide
+
+/-- **legacy_phase2_panicked** (finding C14-F3, fixed by fb2f596d): on the pinned tree the same call panicked
+(`Transaction.rollback` indexed `btreesBackend[0]` with no store attached) -/
+theorem legacy_phase2_panicked :
+    (phase2TxFLegacy (runF (initF .forWriting .absent) [(.begin, Fx.none), (.phase1, Fx.none)]).st true).res = .panic := by
   decide
 
 end Sop.C14
